@@ -176,33 +176,9 @@ func (dt DateTime) Less(input Any) (Boolean, error) {
 // Add returns the result of dt + input. Returns an
 // error if input does not represent a valid time valued quantity.
 func (dt DateTime) Add(input Quantity) (DateTime, error) {
-	var result time.Time
-	value := int(decimal.Decimal(input.value).IntPart())
-	switch input.unit {
-	case "year", "years":
-		result = addYear(dt.dateTime, value)
-	case "month", "months":
-		result = addMonth(dt.dateTime, value)
-	case "week", "weeks":
-		value = 7 * value
-		result = dt.dateTime.AddDate(0, 0, value)
-	case "day", "days":
-		result = dt.dateTime.AddDate(0, 0, value)
-	default:
-		duration, err := input.timeDuration()
-		if err != nil {
-			return DateTime{}, err
-		}
-		result = dt.dateTime.Add(duration)
-	}
-
-	// Reformat to truncate DateTime to initial precision, rounding down to
-	// highest precision value.
-	result, err := time.Parse(string(dt.l), result.Format(string(dt.l)))
-	if err != nil {
-		return DateTime{}, err
-	}
-	return DateTime{result, dt.l}, nil
+	// Adding is subtracting the negated amount: both directions convert an amount in
+	// a unit finer than the precision to whole units of the precision in the same way.
+	return dt.Sub(input.Negate())
 }
 
 // Sub returns the result of dt - input.(Quantity). Returns an
@@ -248,6 +224,13 @@ func (dt DateTime) Sub(input Quantity) (DateTime, error) {
 		}
 		duration = roundToDateTimePrecision(dateTimeMap[dt.l], duration)
 		result = dt.dateTime.Add(-duration)
+	}
+
+	// Drop any component below the precision of the layout (e.g. the milliseconds of
+	// a second-precision value).
+	result, err := time.Parse(string(dt.l), result.Format(string(dt.l)))
+	if err != nil {
+		return DateTime{}, err
 	}
 	return DateTime{result, dt.l}, nil
 }
